@@ -131,22 +131,22 @@ def norm1(b):
             conds = [cond_target(secs[i]) + [norm(secs[i + 1])] for i in range(0, len(secs), 2)]
             return ['if', conds, els]
     if isinstance(b, DT_Var.Var):
-        t = [b.__name__, b.expr is not None]
+        t = [_ex(b.__name__, b.expr is not None), b.expr is not None]
         return ['var'] + t + [params(b.args), b.fmt]
     if isinstance(b, DT_Var.Comment):
         return ['comment']
     if isinstance(b, DT_Return.ReturnTag):
-        return ['return', b.__name__, b.expr is not None]
+        return ['return', _ex(b.__name__, b.expr is not None), b.expr is not None]
     if hasattr(b, '__self__') and isinstance(b.__self__, DT_In.InClass):
         i = b.__self__
-        return ['in', i.__name__, i.expr is not None, params(i.args), norm(i.section),
+        return ['in', _ex(i.__name__, i.expr is not None), i.expr is not None, params(i.args), norm(i.section),
                 norm(i.elses) if i.elses is not None else None]
     if isinstance(b, DT_With.With):
-        return ['with', b.__name__, not isinstance(b.expr, str), [], norm(b.section)]
+        return ['with', _ex(b.__name__, not isinstance(b.expr, str)), not isinstance(b.expr, str), [], norm(b.section)]
     if isinstance(b, DT_Let.Let):
         return ['let', None, norm(b.section)]
     if isinstance(b, DT_Raise.Raise):
-        return ['raise', b.__name__, b.expr is not None, norm(b.section)]
+        return ['raise', _ex(b.__name__, b.expr is not None), b.expr is not None, norm(b.section)]
     if isinstance(b, DT_Try.Try):
         return ['try', norm(b.section), [[n, norm(h)] for n, h in (getattr(b, 'handlers', None) or [])],
                 norm(b.elseBlock) if b.elseBlock is not None else None,
